@@ -60,6 +60,9 @@ class Gen:
                 out.append(self.word())
             elif x < 0.9 and allow_link and self.with_links:
                 url = "http://example.org/p%d" % rnd.randint(1, 999)
+                if getattr(self, "last_url", None) and rnd.random() < 0.15:
+                    url = self.last_url          # the same address cited again
+                self.last_url = url
                 out.append(("ext", url, self.words(1, 2) if rnd.random() < 0.7 else None))
                 out.append(self.word())
             elif allow_ref and self.with_refs and depth == 0:
